@@ -106,6 +106,37 @@ def check_text(sh, fa_fp, algos, text, seen_idx, rng, every_algo=False):
     return True
 
 
+def temporaries_checked(sh, fa_fp, algos, rng):
+    import random as _random
+
+    def crc(data):
+        fp = RP.EMPTY64
+        for b in data:
+            fp ^= b
+            for _ in range(8):
+                fp = (fp >> 1) ^ (RP.EMPTY64 & -(fp & 1))
+        return fp.to_bytes(8, "little").hex()
+
+    seed = rng.getrandbits(40)
+    base = rng.choice(['{"type":"fixed","name":"F","size":%05d}', "text-%05d-é", "%05d"])
+    algs = ["CRC-64-AVRO"] + rng.sample(algos, 2)
+    r1, r2 = _random.Random(seed), _random.Random(seed)
+    got = []
+    for i in range(300):
+        # a temporary string, released as soon as the call returns
+        got.append(guard(fa_fp, base % r1.randrange(100000), algs[i % 3]))
+    for i, (st, g) in enumerate(got):
+        text = base % r2.randrange(100000)
+        a = algs[i % 3]
+        want = crc(text.encode("utf-8")) if a == "CRC-64-AVRO" else hashlib.new({"MD5": "md5", "SHA-256": "sha256"}.get(a, a), text.encode("utf-8")).hexdigest()
+        sh.count("temporary_texts")
+        if st == "exc" or g != want:
+            sh.violation("digest-differs" if a != "CRC-64-AVRO" else "crc64-differs",
+                         "call %d of a run over temporary texts of one length: fingerprint(%r, %r) = %s, expected %s" % (i, text, a, exc_name(g) if st == "exc" else g, want),
+                         {"text_arg": text, "algorithm": a, "history": "temporaries"})
+            return
+
+
 def unknown_names(sh, fa_fp, algos, rng):
     known = set(algos) | {"CRC-64-AVRO"}
     cands = ["", " ", "crc-64-avro", "CRC64", "CRC-64", "Crc-64-Avro", "SHA256", "sha-256", "Sha256", "SHA-1", "sha-1",
@@ -154,6 +185,8 @@ def run_shard(spec):
             unknown_names(sh, fa_fp, algos, rng)
         return sh.result()
     sh.run_case(unknown_names, sh, fa_fp, algos, rng)
+    for _ in range(3):
+        sh.run_case(temporaries_checked, sh, fa_fp, algos, rng)
     sh.run_case(check_text, sh, fa_fp, algos, "", seen_idx, rng, True)
     st, got = guard(fa_fp, "", "CRC-64-AVRO")
     if st == "ok" and got != RP.EMPTY64.to_bytes(8, "little").hex():
